@@ -20,6 +20,8 @@ pub enum FaultKind {
     Errno { errno: i32 },
     /// a write stores only half of its buffer; the next write on that file fails with ENOSPC
     ShortWrite,
+    /// a read returns at most half of what was asked for
+    ShortRead,
 }
 
 #[derive(Clone, Debug, Serialize, Deserialize, PartialEq, Eq, Hash)]
@@ -146,6 +148,14 @@ fn enter(op: &str, path: &str, path2: &str) -> Option<(u64, Decision)> {
             e.injected = Some(format!("errno:{errno}"));
             e.ret = -(errno as i64);
             Decision::Fail(errno)
+        }
+        Some(FaultKind::ShortRead) => {
+            if op == "read" {
+                e.injected = Some("short_read".into());
+                Decision::Short
+            } else {
+                Decision::Pass
+            }
         }
         Some(FaultKind::ShortWrite) => {
             if op == "write" {
@@ -397,7 +407,21 @@ pub unsafe extern "C" fn read(fd: c_int, buf: *mut c_void, n: size_t) -> ssize_t
     let real = || libc::syscall(libc::SYS_read, fd, buf, n) as ssize_t;
     let Some(a) = fd_path(fd) else { return real() };
     let _g = Guard::new();
-    let r = path_op!("read", a, String::new(), real());
+    let r = match enter("read", &a, "") {
+        None => real(),
+        Some((_, Decision::Fail(e))) => {
+            set_errno(e);
+            -1
+        }
+        Some((i, d)) => {
+            let len = if matches!(d, Decision::Short) { (n / 2).max(1).min(n) } else { n };
+            let r = libc::syscall(libc::SYS_read, fd, buf, len) as ssize_t;
+            let err = get_errno();
+            finish(i, if r < 0 { -(err as i64) } else { r as i64 });
+            set_errno(err);
+            r
+        }
+    };
     if r > 0 {
         if let Ok(mut g) = SEAM.lock() {
             if let Some(f) = g.as_mut().and_then(|s| s.fds.get_mut(&fd)) {
